@@ -62,6 +62,9 @@ if ok:
     shutil.copy(patch, out / "patch.diff")
     shutil.copy(demo, out / "demo.py")
     m = json.loads(meta.read_text()) if meta.exists() else {}
+    prev = json.loads((out / "meta.json").read_text()) if (out / "meta.json").exists() else None
+    if prev is not None and prev.get("checks") != res["checks"]:
+        m["earlier_runs"] = prev.get("earlier_runs", []) + [prev.get("checks")]
     m.update({"breaks_property": pid, "what_i_ran": [
         "git worktree of /repo HEAD under /tmp; demo without patch (exit 0 expected)", "git apply patch.diff",
         "demo with patch (exit 1 expected)", "pinned test suite with PYTHONPATH=<worktree>/src",
